@@ -25,7 +25,8 @@ func init() {
 			" R10 the slot written is the slot matched; R11 the written file holds only the printed tree." +
 			" R1 also: reflect writes through a helper are checked at its call sites; R12 matching writes no shared memory." +
 			" R13 the bytes kept for a file are not a window into a buffer that is rewound and filled again (same rule as C03-R12)." +
-			" R11 also: every emitted byte slice is the go/format + imports.Process result (no text-level pass of gopatch's own).",
+			" R11 also: every emitted byte slice is the go/format + imports.Process result (no text-level pass of gopatch's own)." +
+			" R15 a near-miss is not regenerated (PosMatcher validity equality; the structural guards of the matchers).",
 		Trusted:     commonTrusted,
 		Assumptions: commonAssumptions,
 	})
@@ -75,6 +76,12 @@ func runC05(r *an.Run) {
 	// added on both sides exactly when the patch does not itself begin with "..." at the patch start
 	c04ImplicitDots(r)
 	relabel(r, "R9-implicit-leading-and-trailing-elision", "R14-the-implicit-elision-is-added-once-on-both-sides")
+	// context lines are regenerated from the pattern: a candidate that is only nearly an instance (an optional
+	// token more, a longer list) and is matched all the same comes back altered although no '-'/'+' line touches it
+	r.Rule("R15-a-near-miss-is-not-regenerated")
+	posMatcherValidity(r)
+	c01Guards(r)
+	relabel(r, "R5-structural-guards", "R15-a-near-miss-is-not-regenerated")
 }
 
 // astWrites lists stores whose destination is a field of a go/ast (or
